@@ -575,7 +575,8 @@ func validateHeaderParameters(h map[any]any, protected bool) error {
 				}
 				// Basic check that the content type is of form type/subtype.
 				// We don't check the precise definition though (RFC 6838 Section 4.2).
-				if strings.Count(v, "/") != 1 {
+				// (parameters after the first ";" may contain "/" themselves)
+				if mediaType, _, _ := strings.Cut(v, ";"); strings.Count(mediaType, "/") != 1 {
 					return errors.New("header parameter: type: require text of form type/subtype")
 				}
 			}
@@ -594,7 +595,8 @@ func validateHeaderParameters(h map[any]any, protected bool) error {
 				}
 				// Basic check that the content type is of form type/subtype.
 				// We don't check the precise definition though (RFC 6838 Section 4.2).
-				if strings.Count(v, "/") != 1 {
+				// (parameters after the first ";" may contain "/" themselves)
+				if mediaType, _, _ := strings.Cut(v, ";"); strings.Count(mediaType, "/") != 1 {
 					return errors.New("header parameter: content type: require text of form type/subtype")
 				}
 			}
